@@ -336,7 +336,9 @@ func Main(id string, hs ...Harness) {
 		ParallelFor(len(cases), runtime.NumCPU(), func(i int) {
 			h, ok := hm[cases[i].Harness]
 			if !ok {
-				status[i] = -2
+				// not replayable (an escaped panic of a harness, an unknown name):
+				// never "passes" - it must not be excused by a known finding
+				status[i] = -1
 				return
 			}
 			if f := SafeReplay(h, cases[i]); f != nil {
